@@ -137,7 +137,8 @@ CHECKS = {
         "Per run: every conversion compared with the model in the kernel; the five relations evaluated on the implementation for instances (a,b,c,m,k) "
         "on the shipped table and on synthetic exactly-consistent systems.",
    note=TB + "Round trip / route independence inherit C04's certificate hypothesis (same recorded planner findings). Float rounding measured "
-        "(1e-12 linearity, 1e-5/degree shipped, 1e-12 synthetic). Axioms: none.",
+        "(1e-12 linearity, 1e-5/degree shipped, 1e-12 synthetic). Axioms: none, except C05_roundtrip_over_declared_tables (round trip over every table a history of true "
+        "declarations builds, rows registered by lookups included), which uses the standard library's functional_extensionality_dep.",
    tech="Rocq proof: affine form of plan application + corollaries of the certificate theorem; vm_compute correspondence", ref="DESIGN.md §4 C05"),
  "C07": dict(
    text="Theorem C07_only_cnf: for every table with non-zero ratios, every magnitude and every pair of units, the conversion model either succeeds or fails with "
